@@ -376,7 +376,7 @@ func (p *parser) parseIns_Unreachable() (i ast.Ins_Unreachable) {
 }
 func (p *parser) parseIns_Nop() (i ast.Ins_Nop) {
 	i.OpToken = ast.OpToken(p.tok)
-	p.acceptToken(token.INS_DROP)
+	p.acceptToken(token.INS_NOP)
 	return
 }
 func (p *parser) parseIns_Block() (i ast.Ins_Block) {
